@@ -342,7 +342,7 @@ func TestWitnesses(t *testing.T) {
 }
 
 func TestPartialTrie(t *testing.T) {
-	ev.Rapid(t, 1500, 20000)
+	ev.Rapid(t, 5000, 20000)
 	rapid.Check(t, run)
 }
 
